@@ -113,9 +113,15 @@ def one_run(machine, master, idx, oracle, shrink_budget):
     seed = run_seed(master, machine.prop, idx)
     rng = random.Random(seed)
     plan = machine.gen(rng, idx, seed)
+    if rng.random() < 0.15 and machine.executor() is None:
+        # calling style of this run's simulated callers: bound methods are fetched once and re-used
+        plan["held_methods"] = True
     plan = prepare(machine, plan)
     hist = execute(machine, plan)
     vs, probes, trace, nontrivial, extra = machine.check(plan, hist, oracle)
+    if plan.get("held_methods"):
+        probes = dict(probes)
+        probes["runs_with_bound_methods_fetched_once"] = 1
     res = {"idx": idx, "seed": seed, "events": len(hist), "digest": digest(hist), "probes": probes,
            "trace": digest(trace), "nontrivial": nontrivial, "extra": extra, "violations": []}
     if vs:
